@@ -37,3 +37,11 @@ VARIANTS += [
     M('C06', 'only-failing-rows-converted', E(PC, "                df_to_save = convert_output_types(out_df, boolean_ints)", "                rows = out_df if detect_write_all else out_df[out_df[nfailname] > 0]\n                df_to_save = convert_output_types(rows, boolean_ints)"),
       rule='C06-ROWNUM', key='write_detected_records'),
 ]
+
+VARIANTS += [
+    M('C06', 'flag-names-recognised-by-kind-not-suffix', E(PC, "    v = v[:-3]\n    return v in STANDARD_CONSTRAINT_SUFFIXES", "    v = v[:-3]\n    return v in STANDARD_FIELD_CONSTRAINTS"),
+      rule='C06-VERNAME', key='kind=max_nulls'),
+    M('C06', 'flag-name-suffix-renamed-in-builder-only', E(PC, "    return '%s_%s_ok' % (col, CONSTRAINT_SUFFIX_MAP[ctype])", "    return '%s_%s_OK' % (col, CONSTRAINT_SUFFIX_MAP[ctype])"),
+      rule='C06-VERNAME', key='kind=min'),
+    M('C06', 'refactor-is_ver_field-suffix-set', E(PC, "    v = v[:-3]\n    return v in STANDARD_CONSTRAINT_SUFFIXES", "    stem = v[:-len('_ok')]\n    return stem in set(STANDARD_CONSTRAINT_SUFFIXES)"), kind='refactor'),
+]
